@@ -45,8 +45,8 @@ def run(chk):
     # targeted cases: half-open boxes with constraints touching their ends, equalities whose coefficient does not divide the
     # constant (refine_* and converting constructors, every carrier), general-form affine transformers on bounded shapes,
     # queries in the lazy state after dimension changes vs a twin, differences with straddled equalities
-    lines += gen_shapes.make_targeted(chk.seed * 104729 + 5, 480 if chk.quick else 9000, kinds)
+    lines += gen_shapes.make_targeted(chk.seed * 104729 + 5, 480 if chk.quick else 4000, kinds)
     # rational / double boxes with half-open intervals get a stream of their own
-    lines += gen_shapes.make_targeted(chk.seed * 1299709 + 7, 160 if chk.quick else 4000, ["box_q", "box_d"], start=100000, which=["open_box", "open_box", "diff_eq"])
+    lines += gen_shapes.make_targeted(chk.seed * 1299709 + 7, 160 if chk.quick else 1500, ["box_q", "box_d"], start=100000, which=["open_box", "open_box", "diff_eq"])
     out, byid = shapescheck.run_cases(chk, "C03", shapescheck.corpus_cases("C03") + lines, "c03", owner)
     shapescheck.account(chk, out, byid, "C03_* (closure / refine / meet / join / forget never cut a point; definite answers) + verified inclusion test incl_sys")
